@@ -134,6 +134,36 @@ class Intervals:
             tlo, thi = ty_range(t[4])
             # the value exists only if the checked operation did not overflow
             lo, hi = max(lo, tlo), min(hi, thi)
+        elif k == 'from':
+            lo, hi, tn = self.of(t[1], None, depth)          # widening integer conversion
+        elif k == 'tryfrom':
+            alo, ahi, tn = self.of(t[1], None, depth)
+            tlo, thi = ty_range(t[2])
+            lo, hi = max(alo, tlo), min(ahi, thi)           # the value exists only when it fits
+        elif k in ('sat', 'wrap'):
+            tlo, thi = ty_range(t[4])
+            alo, ahi, ta = self.of(t[2], t[4], depth)
+            blo, bhi, tb = self.of(t[3], t[4], depth)
+            tn = ta or tb
+            if k == 'sat':
+                if t[1] == 'Add':
+                    lo, hi = alo + blo, ahi + bhi
+                elif t[1] == 'Sub':
+                    lo, hi = alo - bhi, ahi - blo
+                else:
+                    c = [alo * blo, alo * bhi, ahi * blo, ahi * bhi]
+                    lo, hi = min(c), max(c)
+                lo, hi = min(max(lo, tlo), thi), max(min(hi, thi), tlo)
+            else:
+                lo, hi = tlo, thi
+        elif k in ('imin', 'imax'):
+            alo, ahi, ta = self.of(t[1], t[3], depth)
+            blo, bhi, tb = self.of(t[2], t[3], depth)
+            tn = ta or tb
+            if k == 'imin':
+                lo, hi = min(alo, blo), min(ahi, bhi)
+            else:
+                lo, hi = max(alo, blo), max(ahi, bhi)
         elif k == 'len':
             lo, hi = 0, 2 ** 63 - 1
             tn = True
